@@ -584,4 +584,57 @@ theorem early_termination_prefix (n : Nat) (hn : 1 ≤ n) :
 example : ∀ a b : Merge.Entry, (fun a _ => a) a b = a ∨ (fun (a : Merge.Entry) (_ : Merge.Entry) => a) a b = b :=
   fun _ _ => Or.inl rfl
 
+/-! ## Precondition of iteration: no structural mutation during a scan -/
+
+/-- Replacing the value of keys that exist (what `zipTree_refines_ops` covers: `ascendPut`, `reput`) is safe during a
+scan; **inserting a fresh key from inside a running `AscendPrefix` is not**: the insert's unzip rewrites links of nodes
+the iterator still holds, and the scan omits a key that was in the tree before and after. Witness (tree m(rank 1),
+c(0), f(0); scan of everything; on the first yielded node insert d with rank 5): the scan yields `[c, m]` although `f`
+was present throughout. Iteration therefore has the documented precondition "no insertion while a scan is running"
+(no caller in the repository violates it); the real tree's behaviour on this input is pinned to this model by the
+correspondence op `z.ascins`. -/
+theorem ascendInsert_omits_counterexample :
+    let t := ZipTree.run [([0x6d], [1], 1), ([0x63], [2], 0), ([0x66], [3], 0)]
+    let r := ZipTree.ascendInsert [] [0x64] [4] 5 t
+    r.1 = [([0x63], [2]), ([0x6d], [1])] ∧
+    ZipTree.toList t = [([0x63], [2]), ([0x66], [3]), ([0x6d], [1])] ∧
+    ZipTree.toList r.2 = [([0x63], [2]), ([0x64], [4]), ([0x66], [3]), ([0x6d], [1])] ∧
+    r.1 ≠ ZipTree.ascendPrefix t [] ∧ r.1 ≠ ZipTree.ascendPrefix r.2 [] := by
+  decide
+
+/-! ## PartitionedPriorityQueue over whole runs -/
+
+/-- Trace-level refinement of the partitioned queue: started by `NewPartitionedPriorityQueue` over any sorted partitions
+whose items carry their partition index, every sequence of `Push` / `Delete` / `Pop` is accepted by ONE multiset of all
+queued items: each `Pop` returns a minimum-priority item of that multiset, which then loses exactly it; `Pop` fails only
+when nothing is queued; `Push`/`Delete` add / remove exactly their item (an item addressing no partition changes nothing). -/
+theorem ppq_run_refines (parts : Array (List PPQ.Item)) (ops : List PPQ.Op)
+    (hs : ∀ p, (parts.getD p []).Pairwise (fun a b => a.prio ≤ b.prio))
+    (hpart : ∀ p y, y ∈ parts.getD p [] → y.part = p) :
+    PPQ.Accepts parts.size parts.toList.flatten ops (PPQ.trace (PPQ.new parts) ops) := by
+  have h := PPQ.trace_accepted (PPQ.new parts) (PPQ.new_inv parts)
+    (by intro p; simpa [PPQ.new] using hs p) (by intro p y hy; exact hpart p y (by simpa [PPQ.new] using hy)) ops
+  simpa [PPQ.new] using h
+
+/-- non-vacuity: pre-populated partitions satisfying both hypotheses -/
+example : (∀ p, ((#[[⟨1, 0, 1⟩, ⟨1, 0, 2⟩], [⟨0, 1, 3⟩]] : Array (List PPQ.Item)).getD p []).Pairwise
+      (fun a b => a.prio ≤ b.prio)) ∧
+    (∀ p y, y ∈ (#[[⟨1, 0, 1⟩, ⟨1, 0, 2⟩], [⟨0, 1, 3⟩]] : Array (List PPQ.Item)).getD p [] → y.part = p) := by
+  constructor
+  · intro p
+    match p with
+    | 0 => decide
+    | 1 => decide
+    | n + 2 => rw [Array.getD_eq_getD_getElem?, Array.getElem?_eq_none (by simp)]; simp
+  · intro p y hy
+    match p with
+    | 0 => simp [Array.getD] at hy; rcases hy with rfl | rfl <;> rfl
+    | 1 => simp [Array.getD] at hy; rw [hy]
+    | n + 2 => rw [Array.getD_eq_getD_getElem?, Array.getElem?_eq_none (by simp)] at hy; simp at hy
+
+/-- non-vacuity of `merge_foreign_pick_panics`: a pick that changes the sequence number is foreign on an equal pair -/
+example : Merge.resolve (Gen.c19AscendingEntries Merge.Entry.key) (fun a _ => { a with seq := a.seq + 10 })
+    [⟨[1], 1, []⟩, ⟨[1], 2, []⟩] = none :=
+  merge_foreign_pick_panics _ _ _ _ [] (by decide) (by decide) (by decide)
+
 end Rxn.C19
